@@ -195,7 +195,8 @@ class C10(PropCheck):
             'posterior query with at least one row inside the bounds (formula + oracle tie + finite differences exercised) or on a bound, '
             'evidence trace with >= 2 updates, fast-path comparison at >= 3 points, or multi-phase case (sampling phase -> leave -> '
             'standalone optimize() / direct edit of lengthscale, variance, bias or noise on the GPy model / update(optimize=True|False) '
-            '-> sampling phase again, 1-3 such re-entries, fast predict, predictive_gradients and posterior compared with GPy in EVERY phase) '
+            '-> sampling phase again, after optimize()/update() mostly WITHOUT any non-sampling query in between, 1-3 such re-entries, fast predict, '
+            'predictive_gradients and posterior compared with GPy in EVERY phase) '
             'in which at least one re-entry WITHOUT new evidence really changed the hyper-parameters; every recipe also gets two '
             'posterior queries with a caller-supplied boundary threshold (0, 0.0, -0.0, negative, tiny positive incl. 5e-324, in rotation) '
             'whose density and gradient are compared with the formula evaluated from the SUPPLIED value; distinct by (model recipe, query / steps)')
@@ -203,9 +204,10 @@ class C10(PropCheck):
                'GPy (posterior algebra, optimiser), scipy.stats.norm pdf/cdf/logcdf and numpy sqrt are oracles: their values at the occurring arguments are recorded per case and checked for mutual consistency inside Coq (Gp.oracle_ok)',
                'harness shim paramz.Param.__float__ for 1-element parameters (numpy 2 refuses float(array of shape (1,)) in _cache_RBF_kernel); numpy 1.x behaviour restored, no repo change',
                'finite-difference clause: Richardson-extrapolated central differences, h=1e-4, tolerance 2e-5 relative; fast-path clause: 1e-8 relative',
-               'multi-phase clause: between two sampling phases the harness queries the surrogate once with is_sampling off (as fitting / acquisition / '
-               'threshold minimisation do) - the pinned code invalidates its RBF cache only there; a re-entry with NO non-sampling predict() in between '
-               'is observed, not asserted (histogram keys observed:reentry_before_any_nonsampling_predict:*)')
+               'multi-phase clause: after optimize() / update() through GPyRegression\'s own API the sampling phase is re-entered straight away in 3 of 4 steps '
+               '(no non-sampling predict() in between; stale values or a raised exception are violations); after a direct edit of a parameter on the inner GPy '
+               'object (outside the class\'s API) the harness first queries the surrogate once with is_sampling off, and a re-entry without that query is '
+               'observed, not asserted (histogram keys observed:inner_gpy_edit_then_reentry_before_any_nonsampling_predict:*)')
 
     def __init__(self, seed, tier):
         super().__init__(seed, tier)
@@ -299,11 +301,11 @@ class C10(PropCheck):
             if op in ('update', 'update_opt'):
                 X = [[r.uniform(lo, hi) for lo, hi in rec['bounds']] for _ in range(r.randint(1, 2))]
                 Y = [tg['off'] + sum(c * (x - m) ** 2 for c, x, m in zip(tg['curv'], row, tg['centre'])) + tg['noise'] * r.gauss(0, 1) for row in X]
-                steps.append(dict(op='update', X=X, Y=Y, optimize=(op == 'update_opt')))
+                steps.append(dict(op='update', X=X, Y=Y, optimize=(op == 'update_opt'), query_between=r.random() < 0.25))
             elif op == 'optimize':
-                steps.append(dict(op='optimize'))
-            else:
-                steps.append(dict(op='set', param=op, factor=r.choice([0.3, 0.5, 0.8, 1.5, 2.5, round(r.uniform(0.2, 4.0), 3)])))
+                steps.append(dict(op='optimize', query_between=r.random() < 0.25))
+            else:   # poking the inner GPy object is outside GPyRegression's API: a non-sampling query always follows
+                steps.append(dict(op='set', param=op, factor=r.choice([0.3, 0.5, 0.8, 1.5, 2.5, round(r.uniform(0.2, 4.0), 3)]), query_between=True))
         ys = [y for b in rec['batches'] for y in b['Y']]
         tk = r.choice(['v', 'v', 'q'] + list(self.BOUNDARY_THRESHOLDS))
         if tk == 'v':
@@ -316,7 +318,8 @@ class C10(PropCheck):
         pts[0] = self._point(rec['bounds'], 'in')
         pr = self._prior_spec(rec)
         for st in steps:
-            self.bump('phase_step=' + (st['op'] if st['op'] != 'set' else 'set_' + st['param']) + ('_optimize' if st.get('optimize') else ''))
+            self.bump('phase_step=' + (st['op'] if st['op'] != 'set' else 'set_' + st['param']) + ('_optimize' if st.get('optimize') else '')
+                      + ('' if st['query_between'] else ':no_nonsampling_query_before_reentry'))
         self.bump('phase_first_phase=' + ('heuristic_hyperparameters' if cold else 'as_fitted'))
         return dict(kind='phase', recipe=rec, steps=steps, points=pts, threshold=thr, prior=pr)
 
@@ -489,56 +492,68 @@ class C10(PropCheck):
         P = [np.array(p, dtype=float) for p in case['points']]
         phases = []
         for k in range(len(case['steps']) + 1):
-            ph = dict(step=None, changed=None, probe=None)
+            ph = dict(step=None, changed=None, probe=None, query_between=True)
             if k > 0:
                 st = case['steps'][k - 1]
                 h0 = self._hyper(gp)
-                gp.is_sampling = False          # the sampling phase is over
+                gp.is_sampling = False          # the sampling phase is over (its cache is built: _rbf_is_cached is True)
                 self._apply_step(gp, st)
                 h1 = self._hyper(gp)
                 ph['step'] = st
                 ph['changed'] = bool(h0 != h1)
                 ph['hyper'] = [h0, h1]
-                # observation only (no clause): re-entering the sampling phase right now, i.e. before any
-                # non-sampling predict() has been made, serves the previous phase's cache
-                x0 = P[0][None, :]
-                gp.is_sampling = True
-                try:
-                    m_, v_ = gp.predict(x0)
-                    ph['probe'] = [np.ravel(m_).tolist(), np.ravel(v_).tolist()]
-                except Exception as e:
-                    ph['probe'] = 'raised ' + type(e).__name__
-                finally:
-                    gp.is_sampling = False
-            # the surrogate is used outside the sampling phase (fitting / acquisition / reference values): slow path
-            pts = []
-            for p in P:
-                x = p[None, :]
-                m0, v0 = gp.predict(x)
-                gm0, gv0 = gp.predictive_gradients(x)
-                pts.append(dict(off=[np.ravel(m0).tolist(), np.ravel(v0).tolist(), np.ravel(gm0).tolist(), np.ravel(gv0).tolist()],
-                                shapes_off=[list(np.shape(a)) for a in (m0, v0, gm0, gv0)]))
+                ph['query_between'] = bool(st.get('query_between', True))
+                if st['op'] == 'set':
+                    # observation only (no clause): the inner GPy object was edited behind GPyRegression's back; re-entering
+                    # the sampling phase before any non-sampling predict() serves the previous phase's cache
+                    x0 = P[0][None, :]
+                    gp.is_sampling = True
+                    try:
+                        m_, v_ = gp.predict(x0)
+                        ph['probe'] = [np.ravel(m_).tolist(), np.ravel(v_).tolist()]
+                    except Exception as e:
+                        ph['probe'] = 'raised ' + type(e).__name__
+                    finally:
+                        gp.is_sampling = False
+            pts = [dict() for _ in P]
+            if ph['query_between']:
+                # the surrogate is used outside the sampling phase (fitting / acquisition / threshold minimisation): slow path
+                for p, rw in zip(P, pts):
+                    x = p[None, :]
+                    m0, v0 = gp.predict(x)
+                    gm0, gv0 = gp.predictive_gradients(x)
+                    rw['off'] = [np.ravel(m0).tolist(), np.ravel(v0).tolist(), np.ravel(gm0).tolist(), np.ravel(gv0).tolist()]
+                    rw['shapes_off'] = [list(np.shape(a)) for a in (m0, v0, gm0, gv0)]
+            # else: optimize() / update() through GPyRegression's own API and straight back into the sampling phase --
+            # nothing below touches GPyRegression.predict with is_sampling off until the NEXT step has been applied
             # ---- (next) sampling phase, as BOLFI.sample does it: posterior extracted, then is_sampling = True
             try:
                 post = BolfiPosterior(gp, threshold=thr, prior=prior)
             except Exception as e:
                 return dict(phases=phases, ctor_exception='%s: %s' % (type(e).__name__, e), default_kernel=bool(gp._kernel_is_default))
             ph['t_readback'] = float(np.ravel(post.threshold)[0]) if np.size(post.threshold) == 1 else None
+            ph['cached_on_entry'] = bool(gp._rbf_is_cached)
+            ph['raised'] = None
             gp.is_sampling = True
             try:
-                ph['cached_on_entry'] = bool(gp._rbf_is_cached)
                 for p, rw in zip(P, pts):
                     x = p[None, :]
-                    m1, v1 = gp.predict(x)
-                    gm1, gv1 = gp.predictive_gradients(x)
-                    rw['on'] = [np.ravel(m1).tolist(), np.ravel(v1).tolist(), np.ravel(gm1).tolist(), np.ravel(gv1).tolist()]
-                    rw['shapes_on'] = [list(np.shape(a)) for a in (m1, v1, gm1, gv1)]
                     xq = p if d > 1 else p[0]
-                    rw['logpdf'] = enc(np.ravel(post.logpdf(xq))[0])
-                    rw['grad'] = [enc(v) for v in np.ravel(post.gradient_logpdf(xq))]
+                    rw['inside'] = bool(np.all((p >= b[:, 0]) & (p <= b[:, 1])))
                     rw['lprior'] = enc(np.ravel(prior.logpdf(xq))[0])
                     rw['gprior'] = [enc(v) for v in np.ravel(prior.gradient_logpdf(xq))]
-                    rw['inside'] = bool(np.all((p >= b[:, 0]) & (p <= b[:, 1])))
+                    try:
+                        m1, v1 = gp.predict(x)
+                        gm1, gv1 = gp.predictive_gradients(x)
+                        lp_ = post.logpdf(xq)
+                        gr_ = post.gradient_logpdf(xq)
+                    except Exception as e:      # e.g. the cached |X|^2 row no longer matches the evidence
+                        ph['raised'] = 'x=%s: %s: %s' % (p.tolist(), type(e).__name__, e)
+                        break
+                    rw['on'] = [np.ravel(m1).tolist(), np.ravel(v1).tolist(), np.ravel(gm1).tolist(), np.ravel(gv1).tolist()]
+                    rw['shapes_on'] = [list(np.shape(a)) for a in (m1, v1, gm1, gv1)]
+                    rw['logpdf'] = enc(np.ravel(lp_)[0])
+                    rw['grad'] = [enc(v) for v in np.ravel(gr_)]
             finally:
                 gp.is_sampling = False
             for p, rw in zip(P, pts):           # GPy itself (touches neither is_sampling nor the cache)
@@ -546,6 +561,8 @@ class C10(PropCheck):
                 rw['amp'] = self._lib_amp(gp, p[None, :])
             ph['points'] = pts
             phases.append(ph)
+            if ph['raised']:
+                break
         return dict(phases=phases, default_kernel=bool(gp._kernel_is_default), n_evidence=int(gp.n_evidence))
 
     def run_impl(self, case):
@@ -861,26 +878,37 @@ class C10(PropCheck):
                 k, {'optimize': 'a standalone optimize()', 'update': 'update(optimize=%s) with %d new rows' % (st.get('optimize'), len(st.get('X', []))),
                     'set': 'setting %s x %s on the GPy model' % (st.get('param'), st.get('factor'))}[st['op']],
                 '%s -> %s' % tuple(ph['hyper']) if ph['changed'] else 'unchanged')
+            if st is not None and not ph['query_between']:
+                desc = desc[:-1] + '; NO non-sampling query before re-entering the sampling phase)'
             if st is not None:
                 self.bump('phase_reentries')
+                if not ph['query_between']:
+                    self.bump('phase_reentries_straight_after_' + st['op'] + ('_optimize' if st.get('optimize') else '') + '(no non-sampling query)')
                 if st['op'] != 'update':
                     self.bump('phase_reentries_without_new_evidence')
                     if ph['changed']:
                         self.bump('phase_reentries_without_new_evidence_hyperparameters_changed')
-                # observation, not a clause: what a re-entry without any non-sampling predict() in between would have served
+            if ph.get('raised'):
+                fails.append(('fast_path_equals_gp_multiphase', '%s: the sampling-mode query raised at %s (cache flag on entry %s)' % (desc, ph['raised'], ph['cached_on_entry'])))
+            if st is not None and st['op'] == 'set':
+                # observation, not a clause (inner GPy object edited behind the class's back): what a re-entry without any
+                # non-sampling predict() in between would have served
                 pr = ph['probe']
                 lib0 = ph['points'][0]['lib']
                 if isinstance(pr, str):
-                    self.bump('observed:reentry_before_any_nonsampling_predict:' + pr.replace(' ', '_'))
+                    self.bump('observed:inner_gpy_edit_then_reentry_before_any_nonsampling_predict:' + pr.replace(' ', '_'))
                 elif ph['changed'] and not (close(pr[0], lib0[0], 1e-6) and close(pr[1], lib0[1], 1e-6)):
-                    self.bump('observed:reentry_before_any_nonsampling_predict:stale_values')
+                    self.bump('observed:inner_gpy_edit_then_reentry_before_any_nonsampling_predict:stale_values')
                 elif ph['changed']:
-                    self.bump('observed:reentry_before_any_nonsampling_predict:current_values')
+                    self.bump('observed:inner_gpy_edit_then_reentry_before_any_nonsampling_predict:current_values')
             if ph['t_readback'] != t:
                 fails.append(('supplied_threshold_used', '%s: BolfiPosterior(threshold=%r).threshold reads back %r' % (desc, case['threshold'], ph['t_readback'])))
             for p, r in zip(case['points'], ph['points']):
                 bad = False
-                for name, a, l_, o in zip(('mean', 'var', 'grad_mean', 'grad_var'), r['on'], r['lib'], r['off']):
+                if 'on' not in r:       # the phase stopped at an exception (reported above)
+                    continue
+                d_ = len(p)
+                for name, a, l_, o in zip(('mean', 'var', 'grad_mean', 'grad_var'), r['on'], r['lib'], r.get('off', r['lib'])):
                     slack = 64 * 2.2e-16 * r['amp'][name]      # same policy as the on/off clause
                     if np.shape(a) != np.shape(l_) or not np.all(np.abs(np.array(a) - np.array(l_)) <= TOL_FAST * (1 + np.abs(np.array(l_))) + slack):
                         fails.append(('fast_path_equals_gp_multiphase', '%s: %s at x=%s: is_sampling on %s vs GPy %s (slack %.3g; cache flag on entry %s)'
@@ -888,8 +916,8 @@ class C10(PropCheck):
                         bad = True
                     if np.shape(o) != np.shape(l_) or not close(o, l_, 1e-12):
                         fails.append(('slow_path_is_gp', '%s: %s at x=%s: is_sampling off %s vs GPy %s' % (desc, name, p, o, l_)))
-                if r['shapes_on'] != r['shapes_off']:
-                    fails.append(('fast_path_shapes', '%s: x=%s: shapes on %s vs off %s' % (desc, p, r['shapes_on'], r['shapes_off'])))
+                if r['shapes_on'] != r.get('shapes_off', [[1, 1], [1, 1], [1, d_], [1, d_]]):
+                    fails.append(('fast_path_shapes', '%s: x=%s: shapes on %s vs off %s' % (desc, p, r['shapes_on'], r.get('shapes_off', 'documented (1,1),(1,1),(1,d),(1,d)'))))
                 # ---- the posterior in this phase
                 if not r['inside']:
                     if r['logpdf'] != 'ninf':
